@@ -259,30 +259,32 @@ def rule_histories(ctx, tci):
     # (g) notes added to a composition reach exactly the selected tracks: also after a bar or a container went to two tracks at once
     def go_sel(it):
         c = new(it, compci)
-        t0, t1, t2 = new(it, tci), new(it, tci), new(it, tci)
-        for t in (t0, t1, t2):
+        ts = [new(it, tci) for _ in range(4)]
+        for t in ts:
             it.call_method(c, "add_track", [t], {}, None)
-        c.attrs["selected_tracks"] = [0, 1]
+        c.attrs["selected_tracks"] = [0, 1, 2]
         it.call_method(c, "add_note", [new(it, bci, "C", (4, 4))], {}, None)
         it.call_method(c, "add_note", ["C"], {}, None)
         it.call_method(c, "add_note", [new(it, nci, ["D", "F"])], {}, None)
-        c.attrs["selected_tracks"] = [1]
+        c.attrs["selected_tracks"] = [2]
         it.call_method(c, "add_note", ["E"], {}, None)
-        return [_flatten(t) for t in (t0, t1, t2)], [t.attrs["bars"] for t in (t0, t1, t2)]
+        return [_flatten(t) for t in ts], [t.attrs["bars"] for t in ts]
     v, err = run1("selection", go_sel)
     ok, why = err is None, err
     if ok:
         flats, bars = v
         got = [[(str(e[0]), e[1]) for e in f[0]] for f in flats]
         q = "1/4"
-        want = [[(q, (48,)), (q, (50, 53))], [(q, (48,)), (q, (50, 53)), (q, (52,))], []]
-        shared = [i for i, b in enumerate(bars[0]) if any(b is b2 for b2 in bars[1])]
+        base_ = [(q, (48,)), (q, (50, 53))]
+        want = [base_, base_, base_ + [(q, (52,))], []]
+        shared = [(i, j) for i in range(3) for j in range(i + 1, 3) if any(b is b2 for b in bars[i] for b2 in bars[j])]
         conts = [[id(e[2]) for e in f[0] if e[2] is not None] for f in flats]
+        shared_c = [(i, j) for i in range(3) for j in range(i + 1, 3) if set(conts[i]) & set(conts[j])]
         if got != want:
-            ok, why = False, "tracks hold %s; adding to selection [0, 1] and then to [1] should give %s" % (got, want)
-        elif shared or set(conts[0]) & set(conts[1]):
-            ok, why = False, "the two selected tracks store the same %s object: changing one track changes the other" % ("Bar" if shared else "NoteContainer")
-    ctx.check(ok, R, "selection", repo.find_method(compci, "add_note").where(), "Composition.add_note(<bar>, 'C', <container>) to tracks [0, 1], then 'E' to [1]", why)
+            ok, why = False, "tracks hold %s; adding to selection [0, 1, 2] and then to [2] should give %s" % (got, want)
+        elif shared or shared_c:
+            ok, why = False, "selected tracks %s store the same %s object: changing one track changes the other" % ((shared or shared_c)[0], "Bar" if shared else "NoteContainer")
+    ctx.check(ok, R, "selection", repo.find_method(compci, "add_note").where(), "Composition.add_note(<bar>, 'C', <container>) to tracks [0, 1, 2] of four, then 'E' to [2]", why)
 
     # (g2) a note that one of the selected tracks refuses (out of its instrument's range): the request is refused as a
     #      whole, or it reaches every track that takes it -- never "the tracks before the refusing one, and no further"
